@@ -235,8 +235,76 @@ fn read_after_error(ctx: &mut Ctx) {
     }
 }
 
+/// multi-octet fields placed across the 8 KiB refill boundary of the packet body reader, in packets
+/// whose declared length ends inside such a field, and the same inputs delivered through readers that
+/// hand out 1..7 octets per `fill_buf`: every `read_be_*` / `read_arr` / `take_bytes` of the parsers
+/// meets a buffer that ends in the middle of a field
+fn boundary_straddles(ctx: &mut Ctx, ring: &Ring) {
+    use crate::wire;
+    let site = "PacketParser / Message::from_bytes / Signed*Key::from_bytes on fields straddling the 8 KiB buffer";
+    let keyid = [1u8, 2, 3, 4, 5, 6, 7, 8];
+    let mut inputs: Vec<(String, Vec<u8>)> = Vec::new();
+    let shifts: Vec<usize> = if ctx.thorough() { (0..24).collect() } else { vec![0, 1, 2, 3, 4, 7, 8, 9, 12] };
+    for &shift in &shifts {
+        // v4 signature: hashed area = creation time + a notation whose size puts what follows (the
+        // unhashed area length, an issuer key id, an issuer fingerprint, the left-16, the MPIs) around 8192
+        let fill = 8160 + shift;
+        let mut hashed = wire::subpacket_min(2, &[0x60, 0, 0, 1]);
+        let mut notation = vec![0x80, 0, 0, 0, 0, 1];
+        notation.extend_from_slice(&((fill as u16).to_be_bytes()));
+        notation.push(b'n');
+        notation.extend(std::iter::repeat(b'v').take(fill));
+        hashed.extend_from_slice(&wire::subpacket(5, 20, &notation).unwrap_or_default());
+        let mut unhashed = wire::subpacket_min(16, &keyid);
+        let mut fp = vec![4u8];
+        fp.extend_from_slice(&[0xAB; 20]);
+        unhashed.extend_from_slice(&wire::subpacket_min(33, &fp));
+        let body = wire::sig_v4(4, 0x00, 1, 8, &hashed, &unhashed, [1, 2], None, &wire::mpi(&[0x7F; 256]));
+        for end in [8189usize, 8190, 8191, 8192, 8193, 8194, 8195, 8196, 8200, 8210, body.len()] {
+            if end > body.len() {
+                continue;
+            }
+            inputs.push((format!("sig shift={shift} declared_end={end}"), wire::packet(2, &body[..end])));
+        }
+    }
+    // a v6 public key whose declared key-material count is larger than what follows, past the boundary
+    for extra in [0usize, 1, 3, 4, 5] {
+        let mut material = vec![0u8; 8180 + extra];
+        material[0] = 1;
+        let mut body = vec![6u8, 0x60, 0, 0, 1, 100];
+        body.extend_from_slice(&((material.len() as u32 + 7).to_be_bytes()));
+        body.extend_from_slice(&material);
+        inputs.push((format!("pubkey-v6-unknown-alg extra={extra}"), wire::packet(6, &body)));
+    }
+    for (what, data) in &inputs {
+        let t = Instant::now();
+        let r = guard(|| super::child::exercise_all(data, ring).len());
+        no_panic(ctx, site, &format!("{what} data_cksum={} len={}", crate::frame::cksum(data), data.len()), &r, t);
+        // the same octets through readers that deliver a few octets per refill
+        for cap in [1usize, 2, 3, 5, 7] {
+            let t = Instant::now();
+            let r = guard(|| {
+                let mut n = 0usize;
+                for p in PacketParser::new(std::io::BufReader::with_capacity(cap, &data[..])) {
+                    n += 1;
+                    if let Ok(p) = p {
+                        let _ = p.to_bytes();
+                    }
+                    if n > 1000 {
+                        break;
+                    }
+                }
+                n
+            });
+            no_panic(ctx, "PacketParser over BufReader::with_capacity(1..7) (fields split across refills)", &format!("{what} cap={cap} len={}", data.len()), &r, t);
+        }
+        ctx.stat("boundary_straddle");
+    }
+}
+
 pub fn run(ctx: &mut Ctx, ring: &Ring) {
     let mut rng = ChaCha8Rng::seed_from_u64(ctx.seed ^ 0xC04C);
+    boundary_straddles(ctx, ring);
     read_after_error(ctx);
     message_sweeps(ctx, &mut rng);
     secret_key_sweeps(ctx, ring, &mut rng);
